@@ -83,7 +83,14 @@ fn enc_opt(s: &Option<String>) -> String {
     }
 }
 fn enc_range(r: &Range) -> String {
-    format!("{}.{:x}.{}.{}.{}", if r.v6 { 6 } else { 4 }, r.addr, r.len, r.lo, r.hi)
+    format!(
+        "{}.{:x}.{}.{}.{}",
+        if r.v6 { 6 } else { 4 },
+        r.addr,
+        r.len,
+        r.lo,
+        r.hi
+    )
 }
 fn enc_ranges(rs: &[Range]) -> String {
     list(&rs.iter().map(enc_range).collect::<Vec<_>>())
@@ -96,7 +103,13 @@ fn enc_seplist(items: Vec<String>, sep: &str) -> String {
     }
 }
 fn enc_term(t: &JTerm) -> String {
-    format!("{}/{}/{}/{}", hexs(&t.name), enc_opt(&t.family), if t.accept { "a" } else { "n" }, enc_ranges(&t.filters))
+    format!(
+        "{}/{}/{}/{}",
+        hexs(&t.name),
+        enc_opt(&t.family),
+        if t.accept { "a" } else { "n" },
+        enc_ranges(&t.filters)
+    )
 }
 fn enc_policy(p: &JPolicy) -> String {
     format!(
@@ -120,7 +133,14 @@ fn enc_stmt(s: &RStmt) -> String {
         None => "!".to_string(),
         Some((a, b)) => format!("{}/{}", enc_ranges(a), enc_ranges(b)),
     };
-    format!("{}:{}:{}:{}:{}", hexs(&s.name), ann, if s.active { "a" } else { "i" }, if s.reject { "r" } else { "n" }, eval)
+    format!(
+        "{}:{}:{}:{}:{}",
+        hexs(&s.name),
+        ann,
+        if s.active { "a" } else { "i" },
+        if s.reject { "r" } else { "n" },
+        eval
+    )
 }
 pub fn enc_running(r: &[RStmt]) -> String {
     enc_seplist(r.iter().map(enc_stmt).collect(), ";")
@@ -167,14 +187,24 @@ fn dec_term(s: &str) -> Option<JTerm> {
     if p.len() != 4 {
         return None;
     }
-    Some(JTerm { name: dec_str(p[0])?, family: dec_opt(p[1])?, accept: p[2] == "a", filters: dec_ranges(p[3])? })
+    Some(JTerm {
+        name: dec_str(p[0])?,
+        family: dec_opt(p[1])?,
+        accept: p[2] == "a",
+        filters: dec_ranges(p[3])?,
+    })
 }
 fn dec_policy(s: &str) -> Option<JPolicy> {
     let p: Vec<&str> = s.split(':').collect();
     if p.len() != 4 {
         return None;
     }
-    Some(JPolicy { name: dec_str(p[0])?, comment: dec_opt(p[1])?, reject: p[2] == "r", terms: dec_list(p[3], '+', dec_term)? })
+    Some(JPolicy {
+        name: dec_str(p[0])?,
+        comment: dec_opt(p[1])?,
+        reject: p[2] == "r",
+        terms: dec_list(p[3], '+', dec_term)?,
+    })
 }
 pub fn dec_cfg(s: &str) -> Option<JCfg> {
     dec_list(s, ';', dec_policy)
@@ -196,13 +226,23 @@ fn dec_stmt(s: &str) -> Option<RStmt> {
         let (a, b) = p[4].split_once('/')?;
         Some((dec_ranges(a)?, dec_ranges(b)?))
     };
-    Some(RStmt { name: dec_str(p[0])?, ann, active: p[2] == "a", reject: p[3] == "r", eval })
+    Some(RStmt {
+        name: dec_str(p[0])?,
+        ann,
+        active: p[2] == "a",
+        reject: p[3] == "r",
+        eval,
+    })
 }
 
 impl Case {
     /// re-runnable descriptor: `a|x @ cfg @ running … ` (malformed annotations keep their raw text)
     pub fn descr(&self) -> String {
-        let mut s = format!("{}@{}", if self.agent { "a" } else { "x" }, enc_cfg(&self.cfg));
+        let mut s = format!(
+            "{}@{}",
+            if self.agent { "a" } else { "x" },
+            enc_cfg(&self.cfg)
+        );
         for st in &self.steps {
             s.push('@');
             s.push_str(&enc_seplist(
@@ -227,8 +267,16 @@ impl Case {
         if p.len() < 2 {
             return None;
         }
-        let steps = p[2..].iter().map(|r| dec_list(r, ';', dec_stmt)).collect::<Option<Vec<_>>>()?;
-        Some(Case { agent: p[0] == "a", cfg: dec_cfg(p[1])?, steps, tag: "replay".into() })
+        let steps = p[2..]
+            .iter()
+            .map(|r| dec_list(r, ';', dec_stmt))
+            .collect::<Option<Vec<_>>>()?;
+        Some(Case {
+            agent: p[0] == "a",
+            cfg: dec_cfg(p[1])?,
+            steps,
+            tag: "replay".into(),
+        })
     }
 }
 
@@ -240,7 +288,9 @@ const TRL: &str = "</configuration></data></rpc-reply>";
 
 /// text content as Junos emits it: only the three characters that must be escaped
 fn esc_text(s: &str) -> String {
-    s.replace('&', "&amp;").replace('<', "&lt;").replace('>', "&gt;")
+    s.replace('&', "&amp;")
+        .replace('<', "&lt;")
+        .replace('>', "&gt;")
 }
 fn esc_attr(s: &str) -> String {
     esc_text(s).replace('"', "&quot;")
@@ -251,7 +301,14 @@ pub fn addr_text(r: &Range) -> String {
         format!("{}/{}", std::net::Ipv6Addr::from(r.addr), r.len)
     } else if r.addr > u32::MAX as u128 {
         // not an IPv4 address: the excess shows in the first component (as `showV4L` in Spec/InstalledGrammar.lean)
-        format!("{}.{}.{}.{}/{}", r.addr >> 24, (r.addr >> 16) & 255, (r.addr >> 8) & 255, r.addr & 255, r.len)
+        format!(
+            "{}.{}.{}.{}/{}",
+            r.addr >> 24,
+            (r.addr >> 16) & 255,
+            (r.addr >> 8) & 255,
+            r.addr & 255,
+            r.len
+        )
     } else {
         format!("{}/{}", std::net::Ipv4Addr::from(r.addr as u32), r.len)
     }
@@ -307,7 +364,10 @@ pub fn render_running(stmts: &[RStmt]) -> String {
                 }
             }
             Ann::Malformed(e) | Ann::Parsed(e) => {
-                s.push_str(&format!(r#" jcmd:comment="/* bgpfu-fltr: {} */""#, esc_attr(e)));
+                s.push_str(&format!(
+                    r#" jcmd:comment="/* bgpfu-fltr: {} */""#,
+                    esc_attr(e)
+                ));
             }
         }
         if !st.active {
@@ -329,7 +389,10 @@ pub fn render_running(stmts: &[RStmt]) -> String {
 // payload XML → generic element list
 
 fn enc_tag(t: &str) -> String {
-    if !t.is_empty() && t.bytes().all(|b| b.is_ascii_alphanumeric() || b == b'-' || b == b':' || b == b'_') {
+    if !t.is_empty()
+        && t.bytes()
+            .all(|b| b.is_ascii_alphanumeric() || b == b'-' || b == b':' || b == b'_')
+    {
         t.to_string()
     } else {
         format!("%{}", hexs(t))
@@ -387,10 +450,18 @@ pub fn payload_entries(xml: &str) -> Result<String, String> {
                     let a = a.map_err(|e| e.to_string())?;
                     let k = String::from_utf8_lossy(a.key.as_ref()).to_string();
                     let v = a.unescape_value().map_err(|e| e.to_string())?.to_string();
-                    let v = if k == "junos:comment" { canon_comment(&v) } else { v };
+                    let v = if k == "junos:comment" {
+                        canon_comment(&v)
+                    } else {
+                        v
+                    };
                     attrs.push((enc_tag(&k), v));
                 }
-                out.push(E { path: path.clone(), attrs, text: None });
+                out.push(E {
+                    path: path.clone(),
+                    attrs,
+                    text: None,
+                });
                 if empty {
                     path.pop();
                 } else {
@@ -429,7 +500,11 @@ pub fn payload_entries(xml: &str) -> Result<String, String> {
             let attrs = if e.attrs.is_empty() {
                 "!".to_string()
             } else {
-                e.attrs.iter().map(|(k, v)| format!("{k}={}", hexs(v))).collect::<Vec<_>>().join("&")
+                e.attrs
+                    .iter()
+                    .map(|(k, v)| format!("{k}={}", hexs(v)))
+                    .collect::<Vec<_>>()
+                    .join("&")
             };
             let text = match &e.text {
                 None => "!".to_string(),
@@ -475,8 +550,18 @@ pub fn parse_display(s: &str, v6: bool) -> Option<Range> {
     let (p, lr) = s.split_once('^')?;
     let (a, l) = p.split_once('/')?;
     let (lo, hi) = lr.split_once('-')?;
-    let addr = if v6 { u128::from(std::net::Ipv6Addr::from_str(a).ok()?) } else { u32::from(std::net::Ipv4Addr::from_str(a).ok()?) as u128 };
-    Some(Range { v6, addr, len: l.parse().ok()?, lo: lo.parse().ok()?, hi: hi.parse().ok()? })
+    let addr = if v6 {
+        u128::from(std::net::Ipv6Addr::from_str(a).ok()?)
+    } else {
+        u32::from(std::net::Ipv4Addr::from_str(a).ok()?) as u128
+    };
+    Some(Range {
+        v6,
+        addr,
+        len: l.parse().ok()?,
+        lo: lo.parse().ok()?,
+        hi: hi.parse().ok()?,
+    })
 }
 
 fn catch<T>(f: impl FnOnce() -> Result<T, String> + std::panic::UnwindSafe) -> Result<T, String> {
@@ -499,22 +584,35 @@ pub fn real_read_installed_xml(xml: String) -> String {
             let mut items: Vec<(Vec<u8>, String)> = v
                 .iter()
                 .map(|(n, a, b)| {
-                    let mut ra: Vec<Range> = a.iter().filter_map(|s| parse_display(s, false)).collect();
-                    let mut rb: Vec<Range> = b.iter().filter_map(|s| parse_display(s, true)).collect();
-                    assert!(ra.len() == a.len() && rb.len() == b.len(), "unparsable range in {a:?} {b:?}");
+                    let mut ra: Vec<Range> =
+                        a.iter().filter_map(|s| parse_display(s, false)).collect();
+                    let mut rb: Vec<Range> =
+                        b.iter().filter_map(|s| parse_display(s, true)).collect();
+                    assert!(
+                        ra.len() == a.len() && rb.len() == b.len(),
+                        "unparsable range in {a:?} {b:?}"
+                    );
                     ra.sort();
                     rb.sort();
-                    (n.as_bytes().to_vec(), format!("{}:{}/{}", hexs(n), enc_ranges(&ra), enc_ranges(&rb)))
+                    (
+                        n.as_bytes().to_vec(),
+                        format!("{}:{}/{}", hexs(n), enc_ranges(&ra), enc_ranges(&rb)),
+                    )
                 })
                 .collect();
             items.sort();
-            format!("ok:{}", enc_seplist(items.into_iter().map(|x| x.1).collect(), ";"))
+            format!(
+                "ok:{}",
+                enc_seplist(items.into_iter().map(|x| x.1).collect(), ";")
+            )
         }
     }
 }
 
 fn parses(expr: &str) -> Option<String> {
-    rpsl::expr::MpFilterExpr::from_str(expr).ok().map(|e| e.to_string())
+    rpsl::expr::MpFilterExpr::from_str(expr)
+        .ok()
+        .map(|e| e.to_string())
 }
 
 /// the real candidate reader: `Ok(vec of (raw name, expression text))`
@@ -530,12 +628,19 @@ pub fn canon_cands(r: &Result<Vec<(String, String)>, String>) -> String {
             let mut items: Vec<(Vec<u8>, String)> = v
                 .iter()
                 .map(|(n, e)| {
-                    let e2 = if parses(e).is_some() { hexs(e) } else { "!".to_string() };
+                    let e2 = if parses(e).is_some() {
+                        hexs(e)
+                    } else {
+                        "!".to_string()
+                    };
                     (n.as_bytes().to_vec(), format!("{}:{}", hexs(n), e2))
                 })
                 .collect();
             items.sort();
-            format!("ok:{}", list(&items.into_iter().map(|x| x.1).collect::<Vec<_>>()))
+            format!(
+                "ok:{}",
+                list(&items.into_iter().map(|x| x.1).collect::<Vec<_>>())
+            )
         }
     }
 }
@@ -547,11 +652,19 @@ pub fn ev_impl(cands: &[(String, String)], running: &[RStmt]) -> EvImpl {
     cands
         .iter()
         .map(|(n, e)| {
-            let res = running.iter().find(|s| s.ann == Ann::Parsed(e.clone())).and_then(|s| s.eval.clone());
+            let res = running
+                .iter()
+                .find(|s| s.ann == Ann::Parsed(e.clone()))
+                .and_then(|s| s.eval.clone());
             (
                 n.clone(),
                 e.clone(),
-                res.map(|(a, b)| (a.iter().map(fromstr_syntax).collect(), b.iter().map(fromstr_syntax).collect())),
+                res.map(|(a, b)| {
+                    (
+                        a.iter().map(fromstr_syntax).collect(),
+                        b.iter().map(fromstr_syntax).collect(),
+                    )
+                }),
             )
         })
         .collect()
@@ -572,7 +685,11 @@ fn modeld_path() -> PathBuf {
     }
     let exe = std::env::current_exe().unwrap();
     // <root>/harness/target/debug/vh → <root>/lean/.lake/build/bin/modeld
-    let root = exe.ancestors().nth(4).map(|p| p.to_path_buf()).unwrap_or_default();
+    let root = exe
+        .ancestors()
+        .nth(4)
+        .map(|p| p.to_path_buf())
+        .unwrap_or_default();
     root.join("lean/.lake/build/bin/modeld")
 }
 
@@ -592,8 +709,17 @@ pub fn ask_model(lines: &[String]) -> Vec<String> {
     });
     let out = child.wait_with_output().unwrap();
     w.join().unwrap();
-    let v: Vec<String> = String::from_utf8_lossy(&out.stdout).lines().map(str::to_string).collect();
-    assert_eq!(v.len(), lines.len(), "modeld answered {} of {} lines", v.len(), lines.len());
+    let v: Vec<String> = String::from_utf8_lossy(&out.stdout)
+        .lines()
+        .map(str::to_string)
+        .collect();
+    assert_eq!(
+        v.len(),
+        lines.len(),
+        "modeld answered {} of {} lines",
+        v.len(),
+        lines.len()
+    );
     v
 }
 
@@ -601,10 +727,22 @@ pub fn ask_model(lines: &[String]) -> Vec<String> {
 // generators
 
 fn v4(a: [u8; 4], len: u8, lo: u8, hi: u8) -> Range {
-    Range { v6: false, addr: u32::from_be_bytes(a) as u128, len, lo, hi }
+    Range {
+        v6: false,
+        addr: u32::from_be_bytes(a) as u128,
+        len,
+        lo,
+        hi,
+    }
 }
 fn v6(a: &str, len: u8, lo: u8, hi: u8) -> Range {
-    Range { v6: true, addr: u128::from(std::net::Ipv6Addr::from_str(a).unwrap()), len, lo, hi }
+    Range {
+        v6: true,
+        addr: u128::from(std::net::Ipv6Addr::from_str(a).unwrap()),
+        len,
+        lo,
+        hi,
+    }
 }
 
 /// 12 ranges per family; several share a prefix and differ only in the length range
@@ -642,7 +780,18 @@ pub fn universe(six: bool) -> Vec<Range> {
     }
 }
 
-const PLAIN_NAMES: &[&str] = &["fltr-foo", "p1", "AS-FOO:in", "it's", "say\"hi\"", "ünï-ß", "with space", "x", "fltr-bar", "p2"];
+const PLAIN_NAMES: &[&str] = &[
+    "fltr-foo",
+    "p1",
+    "AS-FOO:in",
+    "it's",
+    "say\"hi\"",
+    "ünï-ß",
+    "with space",
+    "x",
+    "fltr-bar",
+    "p2",
+];
 const META_NAMES: &[&str] = &["a&b", "x<y", "q>r", "r&d;x", "<&>"];
 
 fn subset(rng: &mut Rng, uni: &[Range], p_empty: u64) -> Vec<Range> {
@@ -659,7 +808,12 @@ fn subset(rng: &mut Rng, uni: &[Range], p_empty: u64) -> Vec<Range> {
 
 fn agent_term(six: bool, filters: Vec<Range>) -> JTerm {
     let n = if six { "inet6" } else { "inet" };
-    JTerm { name: n.into(), family: Some(n.into()), filters, accept: true }
+    JTerm {
+        name: n.into(),
+        family: Some(n.into()),
+        filters,
+        accept: true,
+    }
 }
 
 /// a policy as the (repaired) agent installs it for the evaluated sets `a`, `b`
@@ -674,7 +828,12 @@ pub fn agent_policy(name: &str, a: &[Range], b: &[Range], flip: bool) -> JPolicy
     if flip {
         terms.reverse();
     }
-    JPolicy { name: name.into(), comment: None, terms, reject: true }
+    JPolicy {
+        name: name.into(),
+        comment: None,
+        terms,
+        reject: true,
+    }
 }
 
 fn tag_expr(i: usize) -> String {
@@ -729,7 +888,14 @@ fn breakage(rng: &mut Rng, i: usize) -> String {
     all[rng.below(all.len())].clone()
 }
 
-fn mk_stmt(rng: &mut Rng, name: &str, i: usize, p_fail: u64, p_empty: u64, p_malformed: u64) -> RStmt {
+fn mk_stmt(
+    rng: &mut Rng,
+    name: &str,
+    i: usize,
+    p_fail: u64,
+    p_empty: u64,
+    p_malformed: u64,
+) -> RStmt {
     let roll = rng.below(100) as u64;
     let ann = if roll < p_malformed {
         let raw = breakage(rng, i);
@@ -742,8 +908,21 @@ fn mk_stmt(rng: &mut Rng, name: &str, i: usize, p_fail: u64, p_empty: u64, p_mal
     } else {
         Ann::Parsed(tag_expr(i))
     };
-    let eval = if rng.chance(p_fail, 100) { None } else { Some((subset(rng, &universe(false), p_empty), subset(rng, &universe(true), p_empty))) };
-    RStmt { name: name.into(), ann, active: !rng.chance(5, 100), reject: !rng.chance(5, 100), eval }
+    let eval = if rng.chance(p_fail, 100) {
+        None
+    } else {
+        Some((
+            subset(rng, &universe(false), p_empty),
+            subset(rng, &universe(true), p_empty),
+        ))
+    };
+    RStmt {
+        name: name.into(),
+        ann,
+        active: !rng.chance(5, 100),
+        reject: !rng.chance(5, 100),
+        eval,
+    }
 }
 
 /// old/new contents for the relation `rel` ∈ equal, subset, superset, disjoint, overlapping
@@ -775,10 +954,26 @@ fn shape_cases() -> Vec<Case> {
                 let cfg = if absent {
                     vec![]
                 } else {
-                    vec![agent_policy("fltr-foo", if o4 == 2 { &old4 } else { &[] }, if o6 == 2 { &old6 } else { &[] }, rel % 2 == 1)]
+                    vec![agent_policy(
+                        "fltr-foo",
+                        if o4 == 2 { &old4 } else { &[] },
+                        if o6 == 2 { &old6 } else { &[] },
+                        rel % 2 == 1,
+                    )]
                 };
-                let st = RStmt { name: "fltr-foo".into(), ann: Ann::Parsed(tag_expr(1)), active: true, reject: true, eval: Some((a, b)) };
-                out.push(Case { agent: true, cfg, steps: vec![vec![st.clone()], vec![st]], tag: format!("shape.{o4}{n4}.{o6}{n6}.r{rel}") });
+                let st = RStmt {
+                    name: "fltr-foo".into(),
+                    ann: Ann::Parsed(tag_expr(1)),
+                    active: true,
+                    reject: true,
+                    eval: Some((a, b)),
+                };
+                out.push(Case {
+                    agent: true,
+                    cfg,
+                    steps: vec![vec![st.clone()], vec![st]],
+                    tag: format!("shape.{o4}{n4}.{o6}{n6}.r{rel}"),
+                });
             }
         }
     }
@@ -790,7 +985,13 @@ fn foreign_cases() -> Vec<Case> {
     let u4 = universe(false);
     let u6 = universe(true);
     let good = agent_policy("p1", &u4[0..2], &u6[0..1], false);
-    let st = |n: &str| RStmt { name: n.into(), ann: Ann::Parsed(tag_expr(1)), active: true, reject: true, eval: Some((vec![u4[1].clone()], vec![])) };
+    let st = |n: &str| RStmt {
+        name: n.into(),
+        ann: Ann::Parsed(tag_expr(1)),
+        active: true,
+        reject: true,
+        eval: Some((vec![u4[1].clone()], vec![])),
+    };
     let mut v: Vec<(String, JCfg)> = vec![];
     let mut m = |tag: &str, f: &dyn Fn(&mut JPolicy)| {
         let mut p = good.clone();
@@ -803,7 +1004,14 @@ fn foreign_cases() -> Vec<Case> {
         p.terms[0].family = None;
         p.terms[0].filters.clear()
     });
-    m("empty-term", &|p| p.terms.push(JTerm { name: "inet6".into(), family: None, filters: vec![], accept: false }));
+    m("empty-term", &|p| {
+        p.terms.push(JTerm {
+            name: "inet6".into(),
+            family: None,
+            filters: vec![],
+            accept: false,
+        })
+    });
     m("name-mismatch", &|p| p.terms[0].name = "v4".into());
     m("unknown-family", &|p| {
         p.terms[0].name = "iso".into();
@@ -813,9 +1021,15 @@ fn foreign_cases() -> Vec<Case> {
         let t = p.terms[0].clone();
         p.terms.push(t)
     });
-    m("padded-family", &|p| p.terms[0].family = Some(" inet ".into()));
-    m("padded-family-nl", &|p| p.terms[0].family = Some("\n\tinet\n".into()));
-    m("padded-family-nbsp", &|p| p.terms[0].family = Some("\u{a0}inet\u{2003}".into()));
+    m("padded-family", &|p| {
+        p.terms[0].family = Some(" inet ".into())
+    });
+    m("padded-family-nl", &|p| {
+        p.terms[0].family = Some("\n\tinet\n".into())
+    });
+    m("padded-family-nbsp", &|p| {
+        p.terms[0].family = Some("\u{a0}inet\u{2003}".into())
+    });
     m("padded-family-and-name", &|p| {
         p.terms[0].family = Some(" inet".into());
         p.terms[0].name = " inet".into()
@@ -825,7 +1039,9 @@ fn foreign_cases() -> Vec<Case> {
         p.terms[0].family = Some(" iso ".into());
         p.terms[0].name = "iso".into()
     });
-    m("family-inner-space", &|p| p.terms[0].family = Some("in et".into()));
+    m("family-inner-space", &|p| {
+        p.terms[0].family = Some("in et".into())
+    });
     m("no-reject", &|p| p.reject = false);
     m("no-reject-bad-term", &|p| {
         p.reject = false;
@@ -840,7 +1056,9 @@ fn foreign_cases() -> Vec<Case> {
     m("hi-too-large", &|p| p.terms[0].filters[0].hi = 33);
     m("len-too-large", &|p| p.terms[0].filters[0].len = 40);
     m("host-bits", &|p| p.terms[0].filters[0].addr += 5);
-    m("wrong-afi", &|p| p.terms[0].filters.push(universe(true)[0].clone()));
+    m("wrong-afi", &|p| {
+        p.terms[0].filters.push(universe(true)[0].clone())
+    });
     m("dup-filter", &|p| {
         let f = p.terms[0].filters[0].clone();
         p.terms[0].filters.push(f)
@@ -854,8 +1072,18 @@ fn foreign_cases() -> Vec<Case> {
     v.into_iter()
         .flat_map(|(tag, cfg)| {
             vec![
-                Case { agent: false, cfg: cfg.clone(), steps: vec![vec![st("p1")]], tag: format!("foreign.{tag}") },
-                Case { agent: false, cfg, steps: vec![vec![st("other")]], tag: format!("foreign.{tag}.unmanaged") },
+                Case {
+                    agent: false,
+                    cfg: cfg.clone(),
+                    steps: vec![vec![st("p1")]],
+                    tag: format!("foreign.{tag}"),
+                },
+                Case {
+                    agent: false,
+                    cfg,
+                    steps: vec![vec![st("other")]],
+                    tag: format!("foreign.{tag}.unmanaged"),
+                },
             ]
         })
         .collect()
@@ -869,18 +1097,41 @@ fn c03_cases(rng: &mut Rng) -> Vec<Case> {
     let mut out = vec![];
     let installed: Vec<(&str, JCfg)> = vec![
         ("none", vec![]),
-        ("both", vec![agent_policy("p1", &u4[0..2], &u6[0..2], false)]),
+        (
+            "both",
+            vec![agent_policy("p1", &u4[0..2], &u6[0..2], false)],
+        ),
         ("v4only", vec![agent_policy("p1", &u4[0..2], &[], false)]),
-        ("two", vec![agent_policy("p1", &u4[0..2], &u6[0..2], false), agent_policy("p2", &u4[2..3], &u6[2..3], false)]),
+        (
+            "two",
+            vec![
+                agent_policy("p1", &u4[0..2], &u6[0..2], false),
+                agent_policy("p2", &u4[2..3], &u6[2..3], false),
+            ],
+        ),
     ];
     for (itag, cfg) in &installed {
         for kind in 0..45 {
-            let other = RStmt { name: "p2".into(), ann: Ann::Parsed(tag_expr(2)), active: true, reject: true, eval: Some((vec![u4[4].clone()], vec![u6[4].clone()])) };
+            let other = RStmt {
+                name: "p2".into(),
+                ann: Ann::Parsed(tag_expr(2)),
+                active: true,
+                reject: true,
+                eval: Some((vec![u4[4].clone()], vec![u6[4].clone()])),
+            };
             let (ann, eval, tag) = match kind {
                 0 => (Ann::Parsed(tag_expr(1)), None, "failed".to_string()),
                 1 => (Ann::None, None, "unannotated".to_string()),
-                2 => (Ann::Parsed(tag_expr(1)), Some((vec![], vec![])), "evaluates-empty".to_string()),
-                3 => (Ann::Parsed(tag_expr(1)), Some((vec![u4[0].clone()], vec![u6[0].clone()])), "ok".to_string()),
+                2 => (
+                    Ann::Parsed(tag_expr(1)),
+                    Some((vec![], vec![])),
+                    "evaluates-empty".to_string(),
+                ),
+                3 => (
+                    Ann::Parsed(tag_expr(1)),
+                    Some((vec![u4[0].clone()], vec![u6[0].clone()])),
+                    "ok".to_string(),
+                ),
                 k => {
                     let mut r = Rng::new(k as u64 * 7919);
                     let raw = breakage(&mut r, 1);
@@ -891,8 +1142,19 @@ fn c03_cases(rng: &mut Rng) -> Vec<Case> {
                     }
                 }
             };
-            let s = RStmt { name: "p1".into(), ann, active: true, reject: true, eval };
-            out.push(Case { agent: true, cfg: cfg.clone(), steps: vec![vec![s.clone(), other.clone()], vec![s, other]], tag: format!("c03.{itag}.{tag}") });
+            let s = RStmt {
+                name: "p1".into(),
+                ann,
+                active: true,
+                reject: true,
+                eval,
+            };
+            out.push(Case {
+                agent: true,
+                cfg: cfg.clone(),
+                steps: vec![vec![s.clone(), other.clone()], vec![s, other]],
+                tag: format!("c03.{itag}.{tag}"),
+            });
         }
     }
     out
@@ -914,7 +1176,9 @@ fn random_history(rng: &mut Rng, idx: usize) -> Case {
     } else {
         let k = 2 + rng.below(3);
         let off = rng.below(PLAIN_NAMES.len());
-        (0..k).map(|i| PLAIN_NAMES[(off + i) % PLAIN_NAMES.len()]).collect()
+        (0..k)
+            .map(|i| PLAIN_NAMES[(off + i) % PLAIN_NAMES.len()])
+            .collect()
     };
     // initial state: empty, or what the agent would have installed earlier
     let mut cfg: JCfg = vec![];
@@ -933,7 +1197,14 @@ fn random_history(rng: &mut Rng, idx: usize) -> Case {
         let mut st = vec![];
         for (i, n) in pool.iter().enumerate() {
             if rng.chance(3, 4) {
-                st.push(mk_stmt(rng, n, i, if mode == 0 { 8 } else { 15 }, p_empty, if mode == 0 { 3 } else { 8 }));
+                st.push(mk_stmt(
+                    rng,
+                    n,
+                    i,
+                    if mode == 0 { 8 } else { 15 },
+                    p_empty,
+                    if mode == 0 { 3 } else { 8 },
+                ));
             }
         }
         if rng.chance(1, 25) && !st.is_empty() {
@@ -945,7 +1216,12 @@ fn random_history(rng: &mut Rng, idx: usize) -> Case {
         rng.shuffle(&mut st);
         steps.push(st);
     }
-    Case { agent: true, cfg, steps, tag: format!("hist.m{mode}") }
+    Case {
+        agent: true,
+        cfg,
+        steps,
+        tag: format!("hist.m{mode}"),
+    }
 }
 
 // ---------------------------------------------------------------------------------------------
@@ -1007,7 +1283,12 @@ pub fn main(opts: &Opts) {
         .into_iter()
         .map(|c| {
             let descr = c.descr();
-            Live { cfg: c.cfg.clone(), case: c, descr, step: 0 }
+            Live {
+                cfg: c.cfg.clone(),
+                case: c,
+                descr,
+                step: 0,
+            }
         })
         .collect();
 
@@ -1027,8 +1308,16 @@ pub fn main(opts: &Opts) {
             let case_id = format!("{}#{}", l.descr, l.step);
             progress(&case_id);
             let cands = real_candidates(&running);
-            sink.corr(&case_id, format!("plan cands {variant} {}", enc_running(&running)), canon_cands(&cands));
-            sink.corr(&case_id, format!("plan read {variant} {}", enc_cfg(&l.cfg)), real_read_installed(&l.cfg));
+            sink.corr(
+                &case_id,
+                format!("plan cands {variant} {}", enc_running(&running)),
+                canon_cands(&cands),
+            );
+            sink.corr(
+                &case_id,
+                format!("plan read {variant} {}", enc_cfg(&l.cfg)),
+                real_read_installed(&l.cfg),
+            );
             if evlevel && ev_seen.len() < ev_cap && ev_seen.insert(enc_cfg(&l.cfg)) {
                 crate::instev::ev_rows(&mut sink, &case_id, &l.cfg);
             }
@@ -1042,15 +1331,31 @@ pub fn main(opts: &Opts) {
             };
             progress_idle();
             let enc_pl = enc_payloads(&payloads);
-            sink.corr(&case_id, format!("plan cmp {variant} {} {} {}", enc_cfg(&l.cfg), enc_running(&running), enc_pl), "same".into());
+            sink.corr(
+                &case_id,
+                format!(
+                    "plan cmp {variant} {} {} {}",
+                    enc_cfg(&l.cfg),
+                    enc_running(&running),
+                    enc_pl
+                ),
+                "same".into(),
+            );
             sink.count(&format!("step.{}", l.step));
-            sink.count(&format!("tag.{}", l.case.tag.split('.').next().unwrap_or("")));
+            sink.count(&format!(
+                "tag.{}",
+                l.case.tag.split('.').next().unwrap_or("")
+            ));
             match &payloads {
                 Ok(v) => {
                     sink.add("payloads", v.len() as u64);
                     sink.count(&format!("payloads-per-run.{}", v.len().min(5)));
                     for x in v {
-                        sink.count(if x.contains("<policy-statement delete=") { "payload.delete" } else { "payload.update" });
+                        sink.count(if x.contains("<policy-statement delete=") {
+                            "payload.delete"
+                        } else {
+                            "payload.update"
+                        });
                         if x.contains("<term delete=") {
                             sink.count("payload.with-term-delete");
                         }
@@ -1067,7 +1372,13 @@ pub fn main(opts: &Opts) {
             if payloads.is_ok() {
                 apply_lines.push(format!("plan apply {} {}", enc_cfg(&l.cfg), enc_pl));
             }
-            work.push(Work { running, ev, payloads, enc_pl, case_id });
+            work.push(Work {
+                running,
+                ev,
+                payloads,
+                enc_pl,
+                case_id,
+            });
         }
         // phase 2: reference Junos applies the implementation's payloads
         let answers = ask_model(&apply_lines);
@@ -1078,7 +1389,9 @@ pub fn main(opts: &Opts) {
                 let a = &answers[ai];
                 ai += 1;
                 Some(match a.strip_prefix("ok:") {
-                    Some(c) => dec_cfg(c).ok_or_else(|| format!("undecodable cfg from modeld: {a}")),
+                    Some(c) => {
+                        dec_cfg(c).ok_or_else(|| format!("undecodable cfg from modeld: {a}"))
+                    }
                     None => Err(a.clone()),
                 })
             } else {
@@ -1104,13 +1417,22 @@ pub fn main(opts: &Opts) {
                 let cfg_s = enc_cfg(&l.cfg);
                 let run_s = enc_running(&w.running);
                 if prop == "all" || prop == "C01" {
-                    sink.spec(&w.case_id, format!("plan spec1 {cfg_s} {run_s} {} {readback} {pl2}", w.enc_pl));
+                    sink.spec(
+                        &w.case_id,
+                        format!("plan spec1 {cfg_s} {run_s} {} {readback} {pl2}", w.enc_pl),
+                    );
                 }
                 if prop == "all" || prop == "C02" {
-                    sink.spec(&w.case_id, format!("plan spec2 {cfg_s} {run_s} {}", w.enc_pl));
+                    sink.spec(
+                        &w.case_id,
+                        format!("plan spec2 {cfg_s} {run_s} {}", w.enc_pl),
+                    );
                 }
                 if prop == "all" || prop == "C03" {
-                    sink.spec(&w.case_id, format!("plan spec3 {cfg_s} {run_s} {}", w.enc_pl));
+                    sink.spec(
+                        &w.case_id,
+                        format!("plan spec3 {cfg_s} {run_s} {}", w.enc_pl),
+                    );
                 }
                 for s in &w.running {
                     let k = match (&s.ann, &s.eval, s.active && s.reject) {
@@ -1134,7 +1456,12 @@ pub fn main(opts: &Opts) {
             }
             if let Some(c2) = cfg2 {
                 if l.case.agent && readback != "err" && l.step + 1 < l.case.steps.len() {
-                    next.push(Live { case: l.case, descr: l.descr, cfg: c2, step: l.step + 1 });
+                    next.push(Live {
+                        case: l.case,
+                        descr: l.descr,
+                        cfg: c2,
+                        step: l.step + 1,
+                    });
                 }
             }
         }
